@@ -113,7 +113,8 @@ def public_paths(case, res, tags):
     return vios
 
 
-SPLINE_TERMS = ["at_tf", "at_t0", "sum", "sum_last", "int_control", "integral_one", "integral_sq", "integral_u"]
+SPLINE_TERMS = ["at_tf", "at_t0", "sum", "sum_last", "int_control", "integral_one", "integral_sq", "integral_u",
+                "sum_t", "sum_last_t", "sum_DT", "at_t0_t"]        # node terms with explicit time / the interval length
 
 
 def run_spline(case):
@@ -133,7 +134,9 @@ def run_spline(case):
         e = p * p + 0.3 * v
         obj = {"at_tf": lambda: ocp.at_tf(e), "at_t0": lambda: ocp.at_t0(e), "sum": lambda: ocp.sum(e), "sum_last": lambda: ocp.sum(e, include_last=True),
                "int_control": lambda: ocp.integral(e, grid="control"), "integral_one": lambda: ocp.integral(1 + 0 * p), "integral_sq": lambda: ocp.integral(e),
-               "integral_u": lambda: ocp.integral(u * u)}[term]()
+               "integral_u": lambda: ocp.integral(u * u),
+               "sum_t": lambda: ocp.sum(e * (1 + 0.5 * ocp.t)), "sum_last_t": lambda: ocp.sum(e + 0.4 * ocp.t ** 2, include_last=True),
+               "sum_DT": lambda: ocp.sum(e * ocp.DT_control), "at_t0_t": lambda: ocp.at_t0(e + 0.4 * ocp.t) + ocp.at_tf(e * ocp.t)}[term]()
         ocp.add_objective(obj)
         ocp.add_objective(0.01 * ocp.at_tf(v * v) + 0.01 * ocp.sum(u * u))      # keeps every coefficient active
         ocp.solver("ipopt", {"ipopt.print_level": 0, "print_time": False, "ipopt.sb": "yes"})
@@ -150,6 +153,10 @@ def run_spline(case):
             w = NL.generic(nlp.nx, which, 0, lo=-0.8, hi=1.2)
             tn_, en_, tr_, er_, ur_, ex_, exu_ = [np.array(a).reshape(-1) for a in F(w, nlp.p0)]
             dt = np.diff(tn_)
+            from .c17 import norm_grid
+            if not NL.close(tn_, 0.3 + 1.9 * norm_grid(g, N), 1e-10):
+                vios.append(dict(sig="value:obj:spline:grid", tags=tags, detail="node times %s are not the declared grid" % np.round(tn_, 6)))
+                break
 
             def exact_integral(vals):
                 tot = 0.0
@@ -161,7 +168,9 @@ def run_spline(case):
                     tot += (ip(1.0) - ip(0.0)) * dt[k]
                 return tot
             want = {"at_tf": en_[-1], "at_t0": en_[0], "sum": np.sum(en_[:-1]), "sum_last": np.sum(en_), "int_control": np.sum(dt * en_[:-1]),
-                    "integral_one": tn_[-1] - tn_[0], "integral_sq": exact_integral(er_), "integral_u": exact_integral(ur_)}[term]
+                    "integral_one": tn_[-1] - tn_[0], "integral_sq": exact_integral(er_), "integral_u": exact_integral(ur_),
+                    "sum_t": np.sum(en_[:-1] * (1 + 0.5 * tn_[:-1])), "sum_last_t": np.sum(en_ + 0.4 * tn_ ** 2), "sum_DT": np.sum(en_[:-1] * dt),
+                    "at_t0_t": en_[0] + 0.4 * tn_[0] + en_[-1] * tn_[-1]}[term]
             want = want + ex_[-1] + np.sum(exu_[:-1])
             got = nlp.eval(w)[0]
             if not NL.close(got, want, 1e-7):
